@@ -207,13 +207,13 @@ def run(ctx):
                 r["buffered"] = 2
                 return recs
         return recs
-    big = max(traces, key=os.path.getsize)
+    big = sorted(traces, key=os.path.getsize, reverse=True)   # the first file a corruption applies to is used
     tests = [(wrong_target, "the hertz server decodes a different request target", 20),
              (decoders_disagree_on_body, "net/http reads one body byte less than was sent", 200),
              (lost_response_byte, "one response body byte lost", 60),
              (body_of_other_exchange, "response body taken from the previous exchange", 200),
-             (lost_trailer, "response trailer lost", 300),
-             (limit_not_enforced, "over-limit body returned in buffered mode", 400),
+             (lost_trailer, "response trailer lost", 600),
+             (limit_not_enforced, "over-limit body returned in buffered mode", 1500),
              (unanswered_request, "a response returned although the peer never replied", 20),
              (stale_bytes_left, "unread bytes left on a connection that is kept for reuse", 60)]
     # (the self-tests prove that a clean run is not vacuous; when the run has already produced violations the traces no
